@@ -1,2 +1,57 @@
+//! C13 — connection lifecycle: one sender, one receiver, removed once by the last.
+//!
+//! Sequential histories (vhist) on `zero_copy_connection::process_local` and
+//! `::posix_shared_memory`, and concurrent attach / detach / forced-removal programs of 2..3
+//! threads on one `process_local` connection name under the controlled scheduler (vsched).
+//! The process-wide pthread mutex of `dynamic_storage::process_local` is interposed (`mtx.rs`)
+//! so that a registered thread never blocks in the kernel while it holds the baton.
 extern crate iceoryx2_bb_loggers;
-fn main() {}
+
+use vcore::sched;
+use vcore::{Ctx, Spec};
+
+mod common;
+mod conc;
+mod mtx;
+mod seq;
+
+const SPEC: Spec = Spec {
+    prop: "C13",
+    level: "exploration",
+    rule: "sequential case = (storage kind, base parameter set, history <= 12 of create sender/receiver with equal or one-field-mismatching parameters | drop | abandon (dead peer) | forced removal of an abandoned role | round trip): all legal histories up to the stated length over a reduced alphabet + proptest random; concurrent case = (2..3 per-thread programs over create / drop / abandon+forced removal / does_exist of a fixed role on one process_local connection name, schedule): all preemption lists up to the stated bound over the atomic accesses of the real code for the tiny programs, PCT-style random lists and weak-memory stale-read choices beyond; oracle = at most one live holder per role, same-role attach beside a live holder refused as AnotherInstanceIsAlreadyConnected, does_exist true for every live holder and false after the last detach, removal observed exactly once, Ok attach usable (is_connected, offset round trip), mismatch -> matching Incompatible* error with the attached side undisturbed, racing failures only IsBeingCleanedUp / InitializationNotYetFinalized; non-trivial = (concurrent) an attach overlapped a detach of the other role, (sequential) the history contains a mismatch refusal and a re-creation after the last detach; distinct = hash of the whole case",
+    assumptions: &[
+        "schedules are explored at the granularity of atomic accesses; the pthread mutex of dynamic_storage::process_local is replaced by trylock + scheduler parking for scheduled threads (same mutual exclusion, acquisition order decided by the schedule)",
+        "the concurrent part runs on process_local storage only: the posix_shared_memory variant is covered sequentially (its races are between processes and out of reach of the in-process scheduler)",
+        "forced removal is issued only for a role whose holder was abandoned (its safety contract) or when no connection exists (conformance test removing_port_from_non_existing_connection_leads_to_error)",
+        "weak-memory mode under-approximates C11 and gets the mutex happens-before edge from an acq-rel RMW on a dummy atomic inside the critical section",
+    ],
+    watchdog_quick_s: 900,
+    watchdog_thorough_s: 10800,
+};
+
+fn cleanup_shm() {
+    // nothing of this process may stay in /dev/shm
+    for n in vcore::util::shm_entries_containing(&common::prefix_str()) {
+        let _ = std::fs::remove_file(format!("/dev/shm/{n}"));
+    }
+}
+
+fn body(ctx: &mut Ctx) {
+    iceoryx2_log::set_log_level(iceoryx2_log::LogLevel::Fatal);
+    sched::install();
+    ctx.pin_to_one_cpu();
+    seq::seq_parts(ctx);
+    let leftovers = vcore::util::shm_entries_containing(&common::prefix_str());
+    if !leftovers.is_empty() && ctx.violation_count() == 0 {
+        ctx.violation("seq.random", &vcore::Failure::new("seq.leftover_shm", format!("shared memory objects left behind: {leftovers:?}")), serde_json::Value::Null);
+    }
+    cleanup_shm();
+    conc::conc_parts(ctx);
+    if std::env::var("C13_STATS").is_ok() {
+        eprintln!("mutex: {} lock calls by scheduled threads, {} contended", mtx::LOCKS.load(std::sync::atomic::Ordering::Relaxed), mtx::CONTENDED.load(std::sync::atomic::Ordering::Relaxed));
+    }
+}
+
+fn main() {
+    vcore::main(SPEC, body);
+}
